@@ -101,6 +101,31 @@ class Node:
         return "<Node %s %s>" % (self.tag, "/".join(self.path) if self.path is not None else "#%d" % self.id)
 
 
+class ClosureEnv:
+    """the environment a closure was created in (live: later rebinding of an enclosing local is seen, as in Python) plus the
+    values its parameter defaults had at creation (`lambda k, v, name=name: ...` inside a loop keeps THAT name)"""
+
+    def __init__(self, parent, extra):
+        self.parent, self.extra = parent, extra
+
+    def items(self):
+        for kv in self.parent.items():
+            yield kv
+        for kv in self.extra.items():
+            yield kv
+
+    def get(self, k, d=None):
+        if k in self.extra:
+            return self.extra[k]
+        return self.parent.get(k, d)
+
+    def __contains__(self, k):
+        return k in self.extra or k in self.parent
+
+    def __getitem__(self, k):
+        return self.extra[k] if k in self.extra else self.parent[k]
+
+
 class Obj:
     _n = 0
 
@@ -298,6 +323,10 @@ class Interp:
         if k == "ext" and self.maybe_falsy is not None and self.maybe_falsy(v):
             # a scenario value standing for any value of its type, 0 / '' / b'' included
             return self.free("truth(%s)" % v[1])
+        if k == "ext" and v[1].endswith("()") and v[1].rstrip("()").split(".")[-1][:1].islower() and v[1].rstrip("()").split(".")[-1] not in ("object",):
+            # what an opaque library FUNCTION returned (os.path.exists(p), d.get(k)): nothing is known about its truth
+            # (a Capitalised name is a constructor: an object, truthy)
+            return self.free("truth(%s)" % (text or v[1]))
         if k in ("other", "node", "obj", "cls", "closure", "bound", "ext", "clsmethod"):
             return True
         if k == "list":
@@ -429,7 +458,16 @@ class Interp:
             else:
                 di = i - (len(params) - nd)
                 if di >= 0:
-                    env[p] = self.expr(a.defaults[di], {"@owner": owner, "@module": env["@module"]}, depth + 1)
+                    if env0 is not None and ("@default", p) in env0:
+                        env[p] = env0[("@default", p)]
+                        continue
+                    denv = {"@owner": owner, "@module": env["@module"]}
+                    if owner is not None and not isinstance(fn, ast.Lambda):
+                        # a default is evaluated in the class body: names of the class (META_FORMAT) come first
+                        for n_ in {x_.id for x_ in ast.walk(a.defaults[di]) if isinstance(x_, ast.Name)}:
+                            if n_ in owner.consts:
+                                denv[n_] = self.class_const_value(owner, owner, owner.consts[n_])
+                    env[p] = self.expr(a.defaults[di], denv, depth + 1)
                 elif p not in env:
                     raise _Raise(("ext", "TypeError", []), "TypeError: %s() missing required argument %r" % (getattr(fn, "name", "lambda"), p))
         for x, d in zip(a.kwonlyargs, a.kw_defaults):
@@ -440,6 +478,10 @@ class Interp:
         if a.kwarg:
             extra = {k: v for k, v in kwargs.items() if k not in params and k not in [x.arg for x in a.kwonlyargs]}
             env[a.kwarg.arg] = ("dict", extra)
+        else:
+            unknown = [k for k in kwargs if isinstance(k, str) and k != "**" and k not in params and k not in [x.arg for x in a.kwonlyargs]]
+            if unknown and not isinstance(fn, ast.Lambda):
+                raise _Raise(("ext", "TypeError", []), "TypeError: %s() got an unexpected keyword argument %r" % (getattr(fn, "name", "f"), unknown[0]))
         if a.vararg and a.vararg.arg not in env:
             env[a.vararg.arg] = ("list", [])
         pure = owner is not None and self.layer_base is not None and self.layer_base not in self.repo.mro(owner)
@@ -467,6 +509,20 @@ class Interp:
                 self.pure_depth -= 1
             if honest:
                 self.pure_depth = saved_pd
+
+    def closure_env(self, fn, env, depth):
+        a = fn.args
+        ds = list(a.defaults) + [d for d in a.kw_defaults if d is not None]
+        if not ds or not any(isinstance(x, ast.Name) for d in ds for x in ast.walk(d)):
+            return env
+        extra = {}
+        params = [x.arg for x in a.args]
+        for p_, d in zip(params[len(params) - len(a.defaults):], a.defaults):
+            try:
+                extra[("@default", p_)] = self.expr(d, env, depth + 1)
+            except (NeedAtom, _Raise):
+                raise
+        return ClosureEnv(env, extra)
 
     def block(self, stmts, env, depth):
         for s in stmts:
@@ -548,7 +604,7 @@ class Interp:
         elif isinstance(s, ast.With):
             self.with_stmt(s, 0, env, depth)
         elif isinstance(s, (ast.FunctionDef, ast.AsyncFunctionDef)):
-            env[s.name] = ("closure", s, env, env.get("@owner"), None)
+            env[s.name] = ("closure", s, self.closure_env(s, env, depth), env.get("@owner"), None)
         elif isinstance(s, ast.Assert):
             v = self.expr(s.test, env, depth)
             vc = self.concrete(v) if v[0] == "atom" else v
@@ -1073,7 +1129,7 @@ class Interp:
         if isinstance(e, ast.BinOp):
             return self.binop(e.op, self.expr(e.left, env, depth), self.expr(e.right, env, depth), e)
         if isinstance(e, ast.Lambda):
-            return ("closure", e, env, env.get("@owner"), None)
+            return ("closure", e, self.closure_env(e, env, depth), env.get("@owner"), None)
         if isinstance(e, (ast.ListComp, ast.GeneratorExp, ast.SetComp)):
             return self.comprehension(e, env, depth)
         if isinstance(e, ast.DictComp):
@@ -1145,7 +1201,7 @@ class Interp:
                     key = ("@global", r[1].name, n)
                     if key not in self.class_attrs:
                         self.class_attrs[key] = ("fn", "global " + n, [])        # guards against self-reference
-                        if isinstance(r[2], (ast.Tuple, ast.List, ast.Dict, ast.Name, ast.Attribute, ast.Call)) and not any(isinstance(x, (ast.Lambda, ast.Yield, ast.Await)) for x in ast.walk(r[2])):
+                        if isinstance(r[2], (ast.Tuple, ast.List, ast.Dict, ast.Name, ast.Attribute, ast.Call, ast.Lambda)) and not any(isinstance(x, (ast.Yield, ast.Await)) for x in ast.walk(r[2])):
                             try:
                                 v_ = self.expr(r[2], {"@module": r[1], "@owner": None}, 1)
                                 if v_[0] in ("list", "dict", "cls", "closure", "ext") or (v_[0] == "c"):
@@ -1639,11 +1695,15 @@ class Interp:
             rv = self.repo_module_attr(b[1], name)
             if rv is not None:
                 return rv
+        if k == "ext" and (b[1].split(".")[-1].split(" ")[-1], name) in self.LIB_CONST:
+            return self.LIB_CONST[(b[1].split(".")[-1].split(" ")[-1], name)]
         if k in ("ext", "fn", "unk", "unset", "many", "other"):
             return ("fn", "." + name, [b])
         if k == "bound" or k == "closure":
             return ("fn", "." + name, [])
         return ("fn", "." + name, [b])
+
+    LIB_CONST = {("types", "FunctionType"): ("ext", "function", []), ("types", "LambdaType"): ("ext", "function", []), ("types", "MethodType"): ("ext", "method", [])}
 
     def repo_module_attr(self, label, name):
         """value of `name` in a module of this repository referred to by the opaque label 'module <dotted>'; None if unknown"""
@@ -1929,7 +1989,8 @@ class Interp:
         if name == "dict":
             d = dict(kwargs)
             if a0 is not None and a0[0] == "dict":
-                d.update(a0[1])
+                d = dict(a0[1])
+                d.update(kwargs)        # keyword arguments win over the positional mapping
             elif a0 is not None:
                 # a closed list of (constant key, value) pairs: an ordinary dict
                 pairs = self.iterate(a0)
@@ -1953,6 +2014,10 @@ class Interp:
                 return ("dict", {("dyn", 0): a0}, True)
             return ("dict", d)
         if name == "type" and len(args) == 1:
+            if a0[0] in ("closure", "clsmethod"):
+                return ("ext", "function", [])
+            if a0[0] == "bound":
+                return ("ext", "method", [])
             if a0[0] == "obj":
                 return ("cls", a0[1].cls)
             if a0[0] == "list" and len(a0) > 3 and a0[3] == "tuple":
@@ -1967,6 +2032,15 @@ class Interp:
             if ac[0] == "other":
                 return ("ext", "str", [])      # attribute values of a decoded stanza are strings
             return ("fn", "type", [a0])
+        if name == "vars" and len(args) == 1 and a0[0] == "obj" and not (self.models and a0[1].id in self.models):
+            # the instance dictionary: attribute name -> value (a snapshot)
+            return ("dict", {k_: v_ for k_, v_ in a0[1].fields.items() if not k_.startswith("@")})
+        if name == "type" and len(args) == 1 and a0[0] in ("closure", "clsmethod"):
+            return ("ext", "function", [])
+        if name == "type" and len(args) == 1 and a0[0] == "bound":
+            return ("ext", "method", [])
+        if name == "callable" and len(args) == 1 and a0[0] in ("closure", "clsmethod", "bound", "cls"):
+            return C_TRUE
         if name == "setattr" and len(args) == 3 and args[1][0] == "c" and isinstance(args[1][1], str):
             self.set_attr(a0, args[1][1], args[2], env, depth, e)
             return C_NONE
@@ -2048,6 +2122,14 @@ class Interp:
             return self.method_call(fv[2][0], fv[1][1:], args, kwargs, env, depth, e)
         if k in ("ext", "fn"):
             label = fv[1]
+            if label.split(".")[-1] == "reduce" and len(args) >= 2 and args[0][0] in ("closure", "bound", "clsmethod"):
+                # functools.reduce(f, iterable[, initial]): the fold is executed
+                items = self.iterate(self.force(args[1]))
+                if items is not None and (len(args) > 2 or items):
+                    acc = args[2] if len(args) > 2 else items[0]
+                    for x in (items if len(args) > 2 else items[1:]):
+                        acc = self.apply(args[0], [acc, x], {}, env, depth + 1, e)
+                    return acc
             h = self.hooks.get("extcall")
             if h is not None:
                 # a rule observes calls of external callables (constructors of library classes) with their keywords
@@ -2258,6 +2340,10 @@ class Interp:
             rv = self.repo_module_attr(recv[1], name)
             if rv is not None:
                 return self.apply(rv, args, kwargs, env, depth, e)
+        if k == "ext" and recv[1] == "dict" and name == "fromkeys" and args:
+            items_ = self.iterate(self.force(args[0]))
+            if items_ is not None and all(x[0] == "c" and _hashable(x[1]) for x in items_):
+                return ("dict", {x[1]: (args[1] if len(args) > 1 else C_NONE) for x in items_})
         if k == "ext":
             # an unknown method called on an opaque external object: the object now carries what was put into it,
             # and the call is recorded (dispatcher / protocol / manager calls are effects some rules look at)
